@@ -105,6 +105,32 @@ func init() {
 			typ = typ.(*types.Pointer).Elem()
 		}
 		p := c.s.alloc(BlobV{Kind: "json", Val: val, Typ: typ, Bad: "false"})
+		// a document is at least as long as each string it carries (and never empty)
+		doc := c.w.blobStr(c.s, p.Obj)
+		c.s.addPC("(>= (str.len " + doc + ") 2)")
+		var walk func(v Value, depth int)
+		walk = func(v Value, depth int) {
+			if depth > 4 {
+				return
+			}
+			switch x := v.(type) {
+			case StrV:
+				if x.K == SOpaque {
+					c.s.addPC("(>= (str.len " + doc + ") " + strLen(x).T + ")")
+				}
+			case StructV:
+				for _, f := range x.F {
+					walk(f, depth+1)
+				}
+			case SliceV:
+				if x.Obj != 0 && x.Len >= 0 {
+					for _, e := range sliceElems(c.s, x) {
+						walk(e, depth+1)
+					}
+				}
+			}
+		}
+		walk(val, 0)
 		c.setTuple(SliceV{p.Obj, 0, -1, -1}, IfaceV{})
 		return nil, false
 	}
